@@ -76,7 +76,9 @@ func (e *Env) caseOpts(t *schema.Type, n, perKey int, arbitrary bool, long bool)
 	}
 	if long && hasList(e, t, map[string]bool{}) {
 		for _, l := range []int{255, 256, 1000, 65535} {
-			cs = append(cs, &gen.Opts{Arbitrary: arbitrary, NoNilBody: true, Lens: []int{l}, StrLens: []int{0, 255, 256, 65535}})
+			// long lists carry short texts, long texts sit in short lists (a 65535×65535-byte list is 4 GiB)
+			cs = append(cs, &gen.Opts{Arbitrary: arbitrary, NoNilBody: true, Lens: []int{l}, StrLens: []int{0, 1, 3}})
+			cs = append(cs, &gen.Opts{Arbitrary: arbitrary, NoNilBody: true, Lens: []int{1, 2}, StrLens: []int{l}})
 		}
 	}
 	return cs
